@@ -87,7 +87,7 @@ class Withdraw:
         return self.T.tr(v, env)
 
 
-def run(ctx):
+def _run(ctx):
     P = ctx.P
     n1 = ctx.inst("C04.N1", "refund x_i <= r_i*a/S for all reserves, supplies, burn amounts (E-ROUND)", floor=2)
     n2 = ctx.inst("C04.N2", "refund x_i >= r_i*a/S - r_i/10^18 - 1", floor=2)
@@ -191,3 +191,9 @@ def run(ctx):
             for f in i.failures:
                 r4.fail("C04.R4:%s" % f["key"], f["fn"], f["span"], "[%s] %s" % (i.id, f["reason"]))
     ctx.assumptions.append("cw20-base debits exactly `a` from the holder on Send and from the pair on Burn (trusted)")
+
+
+def run(ctx):
+    from .. import numeric
+    _run(ctx)
+    numeric.arith_base(ctx, "C04.B1")
